@@ -38,7 +38,7 @@ def run(ctx):
     ctx.floor("R-C06.1", "write entry points", entries, 5)
     for fn in entries:
         og = ctx.og(fn)
-        nb = R.call_blocks(fn, (R.SEQNO_NEXT,))
+        nb = R.seqno_draw_blocks(ctx, fn)
         ok1 = len(nb) == 1 and not A.in_cycle(fn, nb[0])
         ctx.ob("R-C06.1", fn, "one-seqno-per-operation", ok1,
                "exactly one seqno.next(), outside any loop" if ok1 else "%d seqno.next() call(s)%s: items of one operation would get different sequence numbers" % (len(nb), " (inside a loop)" if nb and A.in_cycle(fn, nb[0]) else ""))
@@ -46,7 +46,8 @@ def run(ctx):
             continue
         draw = og.of_call(fn.term(nb[0]), nb[0])
         dk = A.tkey(draw)
-        gen_ok = any(A.ends_with_field(x, "supervisor", "seqno") for x in draw.a[1])
+        d2 = A.through_thin(F, draw)
+        gen_ok = d2.k == "call" and d2.a[0] == R.SEQNO_NEXT and any(A.ends_with_field(x, "supervisor", "seqno") for x in d2.a[1])
         ctx.ob("R-C06.1", fn, "drawn-from-database-generator", gen_ok, "seqno drawn from %s" % A.tstr(draw.a[1][0]), nontrivial=False)
         sites = []
         for b, t in fn.calls():
@@ -92,7 +93,7 @@ def run(ctx):
         ok = False
         for b, t in op.calls():
             if A.cname(t) == "snapshot_nonce::SnapshotNonce::new":
-                term = og.of_operand(t["args"][0])
+                term = A.through_thin(F, og.of_operand(t["args"][0]))
                 ok = term.k == "call" and term.a[0] == "lsm_tree::SequenceNumberCounter::get" and A.access_path(term.a[1][0]) == ("P1", "seqno")
                 detail = "nonce instant := %s" % A.tstr(term)
         ctx.ob("R-C06.3", op, "instant-is-visible-seqno", ok, detail if ok else "open() does not take the tracker's visible counter as the view instant")
